@@ -255,7 +255,8 @@ pub fn k4_date_bin() {
     let y: i32 = vk::any();
     let m: u32 = vk::any();
     let dd: u32 = vk::any();
-    vk::assume(y >= 0 && y <= 9999 && m >= 1 && m <= 12 && dd >= 1 && dd <= 31);
+    // every date chrono can represent (years far outside 0..=9999 included): the wire has 16 bits for the year
+    vk::assume(m >= 1 && m <= 12 && dd >= 1 && dd <= 31);
     let d = match NaiveDate::from_ymd_opt(y, m, dd) {
         Some(d) => d,
         None => return,
@@ -266,7 +267,11 @@ pub fn k4_date_bin() {
     };
     let mut b = Buf::<16>::new();
     let r = noerr(d.to_mysql_bin(&mut b, &c));
-    if c.coltype == ColumnType::MYSQL_TYPE_DATE {
+    if c.coltype == ColumnType::MYSQL_TYPE_DATE && (y < 0 || y > 65535) {
+        vk_cover!(y > 65535, "cover: a year beyond the 16-bit wire field");
+        vk_cover!(y < 0, "cover: a negative year");
+        vk_assert!(r.is_err() && b.n == 0, "[C07.bin.date] a date whose year does not fit the wire format must be refused, not sent as another year");
+    } else if c.coltype == ColumnType::MYSQL_TYPE_DATE {
         vk_cover!(y == 9999 && m == 12 && dd == 31, "cover: last day of year 9999");
         vk_assert!(r.is_ok() && b.n == 5 && b.b[0] == 4, "[C07.bin.date] DATE must be the 4-byte form");
         vk_assert!(
@@ -288,7 +293,8 @@ pub fn k4_datetime_bin() {
     // full nanosecond resolution: what the protocol carries is the microsecond part, sub-microsecond
     // digits are cut off (a value with 1..999 ns is a value WITHOUT microseconds)
     let (h, mi, s, ns): (u32, u32, u32, u32) = (vk::any(), vk::any(), vk::any(), vk::any());
-    vk::assume(y >= 0 && y <= 9999 && m >= 1 && m <= 12 && dd >= 1 && dd <= 31);
+    vk::assume(m >= 1 && m <= 12 && dd >= 1 && dd <= 31);
+    // (chrono's leap-second representation, nanoseconds >= 10^9, is outside the domain: MySQL has no leap seconds)
     vk::assume(h < 24 && mi < 60 && s < 60 && ns < 1_000_000_000);
     let us = ns / 1000;
     vk_cover!(ns % 1000 != 0 && us == 0, "cover: sub-microsecond value");
@@ -302,7 +308,11 @@ pub fn k4_datetime_bin() {
     };
     let mut b = Buf::<16>::new();
     let r = noerr(d.to_mysql_bin(&mut b, &c));
-    if c.coltype == ColumnType::MYSQL_TYPE_DATETIME || c.coltype == ColumnType::MYSQL_TYPE_TIMESTAMP {
+    let dt_col = c.coltype == ColumnType::MYSQL_TYPE_DATETIME || c.coltype == ColumnType::MYSQL_TYPE_TIMESTAMP;
+    if dt_col && (y < 0 || y > 65535) {
+        vk_cover!(y > 65535, "cover: a year beyond the 16-bit wire field");
+        vk_assert!(r.is_err() && b.n == 0, "[C07.bin.datetime] a datetime whose year does not fit the wire format must be refused, not sent as another year");
+    } else if dt_col {
         vk_cover!(us != 0, "cover: datetime with microseconds");
         vk_cover!(us == 0, "cover: datetime without microseconds");
         vk_assert!(r.is_ok(), "[C07.bin.datetime] datetime refused for DATETIME/TIMESTAMP");
